@@ -229,6 +229,10 @@ func (its *WiredDatatype) updateStateOfDatatype(
 			its.bufMutex.Unlock()
 			newOpID := model.NewOperationIDWithCUID(its.opID.CUID)
 			newOpID.Lamport = 1 // Because of SnapshotOperation
+			// The server may know this client already (the creating push was stored but its answer got
+			// lost): numbering goes on after what the server has acknowledged, or the next operations
+			// would be taken for duplicates and never be stored.
+			newOpID.Seq = its.checkPoint.Cseq
 			its.SetOpID(newOpID)
 			its.L().Infof("reset buffer and opID:%s because DUE_TO_SUBSCRIBE_CREATE = > SUBSCRIBE", its.opID.ToString())
 		}
